@@ -190,6 +190,20 @@ fn c05_core(ctx: &mut Ctx) {
             }
         }
 
+        // a branch that is a textual copy of its condition (or any operand of its neighbour), and
+        // probes written without brackets: "the same subtree twice" must still be evaluated twice
+        if ctx.rng.chance(1, 5) {
+            let j = ctx.rng.below(items.len() - 1);
+            items[j + 1] = items[j].clone();
+        }
+        if ctx.rng.chance(1, 5) {
+            let j = ctx.rng.below(items.len());
+            p.n += 1;
+            items[j] = if ctx.rng.chance(1, 2) { (json!({"!!": {"log": format!("p{}", p.n)}}), "probe-truthy") } else { (json!({"!": {"log": format!("p{}", p.n)}}), "probe-falsy") };
+            if ctx.rng.chance(1, 2) && j + 1 < items.len() {
+                items[j + 1] = items[j].clone();
+            }
+        }
         let d = &datas[(i % 4) as usize];
         c05_list(ctx, &items, d);
         if i % 500 == 0 {
@@ -331,10 +345,32 @@ fn c13_core(ctx: &mut Ctx) {
         let op = *ctx.rng.pick(&["map", "filter", "reduce"]);
         let coll = if ctx.rng.chance(1, 2) { Value::Array((0..ctx.rng.below(6)).map(|_| rand_value(&mut ctx.rng, 2)).collect()) } else { g.rule(&mut ctx.rng, &d, 2, 3) };
         let scope = if op == "reduce" { json!({"current": rand_value(&mut ctx.rng, 1), "accumulator": rand_value(&mut ctx.rng, 1)}) } else { rand_value(&mut ctx.rng, 2) };
-        let e = g.rule(&mut ctx.rng, &scope, 2, 3);
+        let mut e = g.rule(&mut ctx.rng, &scope, 2, 3);
+        if ctx.rng.chance(1, 4) {
+            // the everyday shape: a binary operator over the scope variables, in every spelling of
+            // the reference (bare, bracketed, with a default that is a constant / logs / fails)
+            let op2 = *ctx.rng.pick(&["+", "-", "*", "cat", "merge", "max", "min", "and", "or", "==", "<", "===", "in"]);
+            let mut refer = |ctx: &mut Ctx, g: &mut RuleGen, key: &str| -> Value {
+                match ctx.rng.below(6) {
+                    0 | 1 => json!({ "var": key }),
+                    2 => json!({ "var": [key] }),
+                    3 => json!({"var": [key, rand_scalar(&mut ctx.rng)]}),
+                    4 => json!({"var": [key, g.uprobe()]}),
+                    _ => json!({"var": [key, {"/": [1]}]}),
+                }
+            };
+            e = if op == "reduce" {
+                let (a, b) = (refer(ctx, &mut g, "current"), refer(ctx, &mut g, "accumulator"));
+                if ctx.rng.chance(1, 2) { json!({ op2: [a, b] }) } else { json!({ op2: [b, a] }) }
+            } else {
+                let a = refer(ctx, &mut g, "");
+                let c = rand_scalar(&mut ctx.rng);
+                if ctx.rng.chance(1, 2) { json!({ op2: [a, c] }) } else { json!({ op2: [c, a] }) }
+            };
+        }
         let rule = if op == "reduce" { json!({ op: [coll, e, g.rule(&mut ctx.rng, &d, 1, 2)] }) } else { json!({ op: [coll, e] }) };
         let out = c13_case(ctx, &rule, &d, true);
-        if i % 3 == 0 {
+        if i % 2 == 0 {
             c13_self_laws(ctx, op, &rule, &d, &out);
         }
         if i % 4 == 0 {
